@@ -10,8 +10,8 @@ try:
     assert s.count(old) >= 1, 'pattern not found'
     open(p, 'w').write(s.replace(old, new, 1))
     env = dict(os.environ, PYVC_REPO=d)
-    r = subprocess.run([sys.executable, '/verif/tools/try1.py'] + keys, env=env, capture_output=True, text=True)
-    lines = [l for l in r.stdout.splitlines() if not l.startswith('  unsat') and 'canary' not in l]
+    r = subprocess.run([sys.executable, '/verif/tools/try2.py'] + keys, env=env, capture_output=True, text=True)
+    lines = [l for l in r.stdout.splitlines() if 'canar' not in l]
     print('\n'.join(lines[:25])); print(r.stderr[-2000:])
 finally:
     shutil.rmtree(d)
